@@ -6,6 +6,9 @@ CONSTANTS
   FirstT = 0
   MaxT = 4
   Kinds = {"f", "sf", "h", "sh"}
+  RunGaps = {}
+  RunLens = {}
+  MaxRuns = 0
   Sels <- SelsA
   Offs = {0, 1}
   Ats <- AtsQuick
